@@ -486,6 +486,42 @@ Definition functional_tables (A : alg) (hval jval : label -> aL A) (hcoef jcoef 
   (forall c e e', In (c, e) (g_cwrites g) -> In (c, e') (g_cwrites g) ->
      ceval A hcoef jcoef e = ceval A hcoef jcoef e').
 
+(* a computable sufficient condition for functional_tables: two assignments to the same label carry
+   the same symbolic value up to the dictionary a base entry is read from (a label shared by the two
+   input dictionaries must then denote the same matrix in both); for coefficient names the only
+   admitted repetition is the default "1" -> 1 against the caller's "1" *)
+Fixpoint erase_src (e : mexp) : mexp :=
+  match e with
+  | MBase _ l => MBase SHam l
+  | MT e => MT (erase_src e)
+  | MConj e => MConj (erase_src e)
+  | MH e => MH (erase_src e)
+  | MMul a b => MMul (erase_src a) (erase_src b)
+  end.
+
+Definition log_functional_syn (log : list (label * mexp)) : bool :=
+  forallb (fun kv => forallb (fun kv' =>
+      negb (String.eqb (fst kv) (fst kv')) || mexp_eqb (erase_src (snd kv)) (erase_src (snd kv'))) log) log.
+
+Fixpoint cexp_eqb (a b : cexp) : bool :=
+  match a, b with
+  | COne, COne => true
+  | COne, CBase SHam c | CBase SHam c, COne => String.eqb c "1"
+  | CBase s c, CBase s' c' => src_eqb s s' && String.eqb c c'
+  | CI e, CI e' => cexp_eqb e e'
+  | _, _ => false
+  end.
+
+Definition clog_functional_syn (log : list (cname * cexp)) : bool :=
+  forallb (fun kv => forallb (fun kv' =>
+      negb (String.eqb (fst kv) (fst kv')) || cexp_eqb (snd kv) (snd kv')) log) log.
+
+Definition tables_check (bug_sign : bool) (i : input) : bool :=
+  match generate_struct bug_sign i with
+  | Ok g => log_functional_syn (g_log g) && clog_functional_syn (g_cwrites g)
+  | _ => true
+  end.
+
 (* ============================================================================================ *)
 (* A concrete instance: 1x1 matrices over the Gaussian rationals Q(i) (pairs of canonical       *)
 (* rationals), one site, embedded by the identity.                                              *)
